@@ -64,6 +64,9 @@ pub struct RMsg {
     /// C05 reach measure: (key-set hash, iteration-order hash, map size), deduplicated per item
     #[serde(default)]
     pub map_orders: Vec<(u64, u64, u8)>,
+    /// explicit worlds only: per world, the run-length encoded schedule decisions actually taken and the event digest
+    #[serde(default)]
+    pub traces: Vec<(Vec<(u8, u32)>, u64)>,
     /// explicit worlds only: (world index, job index, request key, observation hash)
     #[serde(default)]
     pub obs: Vec<(usize, usize, u64, u64)>,
@@ -435,6 +438,7 @@ impl Worker {
                     let r = self.run(&tag, w);
                     let dg = self.world_stats(w, &r, &mut rm);
                     rm.digests.push((tag.clone(), dg));
+                    rm.traces.push((r.sched.trace.clone(), dg));
                     if r.sched.trace_mismatch {
                         bump(&mut rm.stats, "replay.trace_mismatch", 1);
                     }
